@@ -82,7 +82,7 @@ theorem C05_discarded_never_saved (ao : AliasOracle) (cfg : OpCfg) (L : List Ev)
 /-- A recording is saved at most once and only as the last step: whenever the log ends in `save i`, the stored
 recording `i` is the recording that was filled (or the save failed and nothing was stored). -/
 theorem C05_saved_is_whole (cfg : OpCfg) (s : St) (r : Recording) :
-    (saveRecording s cfg r).store = (if cfg.saveFails then s.store else r :: s.store) := by
+    (saveRecording s cfg r).store = (if cfg.saveFailsOn r.data then s.store else r :: s.store) := by
   unfold saveRecording; split <;> simp [addLog]
 
 /-! Non-vacuity -/
